@@ -1,5 +1,9 @@
 """C04 — single-crossingness (is_single_crossing, is_single_crossing_conflict_sets).
 
+Since the deepening round the algorithm of is_single_crossing is also mirrored (c04.algo = sc_algo, proved sound and
+complete on well-formed profiles): verdicts must agree (they do whenever the implementation agrees with the references),
+exact agreement of the returned sequence is recorded as a statistic.
+
 Shape (R): the implementation's verdict is compared with the proved reference deciders of Model/SC.v
 (c04.decide = brute force over arrangements, n <= 7; c04.cdecide = nested conflict sets, polynomial, proved
 equivalent to the specification), the returned sequence goes through the verified witness checker c04.check at
@@ -30,15 +34,21 @@ EXHAUSTIVE = {"quick": "m=3: all subsets of the 6 orders in every storage order 
               "thorough": "m=3: all subsets of the 6 orders in every storage order (ids 0..2 and 1..3); m=4: all sets "
                           "of <= 5 distinct orders, every storage order for n <= 4, {sorted, reversed, shuffled} for "
                           "n = 5; m=5: all sets of <= 2 orders in both storage orders"}
-TRUSTED = ["(R) not mirrored: the Kendall-tau scoring / sort / bucket strategy of is_single_crossing and the set "
-           "manipulation of is_single_crossing_conflict_sets; they are compared with the proved references "
-           "c04.decide (n <= 7) and c04.cdecide (all generated sizes) and the returned sequence is checked by the "
-           "verified checker c04.check at every size",
-           "OrdinalInstance.flatten_strict (tuple of the single member of each class) is used as is"]
+TRUSTED = ["is_single_crossing is MIRRORED step by step by sc_algo (Model/SCAlgo.v: scores relative to the first two stored "
+           "orders, stable sort for n < m, bucket array + collision test for n >= m, verification pass) and the mirror is "
+           "proved exact for every size (sc_algo_sound, sc_algo_complete, sc_algo_no_error); the implementation is "
+           "compared with it on every generated case: verdict (hard) and returned sequence (counted statistic; a "
+           "different but valid witness is not an alarm)",
+           "is_single_crossing_conflict_sets is not mirrored literally (Python sets of (min, max) pairs); "
+           "sc_conflict_decide is its specification-level counterpart, proved equivalent to SC, and is compared on "
+           "every case",
+           "OrdinalInstance.flatten_strict (tuple of the single member of each class) is used as is; "
+           "kendall_tau_distance = ktd (theorem ktd_kendall_tau, C20 model)"]
 ASSUMPTIONS = ["profiles are duplicate-free lists of strict complete orders over the alternatives of the instance "
                "(data type soc), at least one order; alternatives are non-negative integers; multiplicities arbitrary >= 1"]
 THEOREMS_FOR_OP = {
-    "c04.decide": "sc_decide_correct / sc_conflict_decide_correct (verdict), sc_witness_check_correct (sequence)",
+    "c04.decide": "sc_decide_correct / sc_conflict_decide_correct / sc_algo_correct (verdict), "
+                  "sc_witness_check_correct (sequence)",
     "c04.core": "sc_core_refutes_sound (sc_sub: heredity), sc_conflict_decide_correct",
 }
 TIMEOUT_S = 60.0
